@@ -68,6 +68,18 @@ type c31EStep struct {
 type c31EPlan struct {
 	Upstreams int        `json:"upstreams,omitempty"` // number of local listeners given as the address list (default 2)
 	Steps     []c31EStep `json:"steps"`
+	// steady trickle (after the steps): one packet of TrickleSize every TrickleGapMs, TrickleCount times;
+	// each must arrive upstream within c31TrickleBoundEgress of its own acceptance
+	TrickleGapMs int `json:"trickle_gap_ms,omitempty"`
+	TrickleCount int `json:"trickle_count,omitempty"`
+	TrickleSize  int `json:"trickle_size,omitempty"`
+}
+
+const c31TrickleBoundEgress = 5 * time.Second // batch timeout 1 s + slack
+
+type c31EAcc struct {
+	size int
+	at   time.Time
 }
 
 type c31ECase struct {
@@ -94,6 +106,7 @@ func c31EBody(dst []byte, seq uint64, size int) []byte {
 
 type c31EFrame struct {
 	seq     int64 // -1: write_err batch
+	at      time.Time
 	val     float64
 	errText string
 }
@@ -212,7 +225,7 @@ func (uc *c31UpConn) read(c net.Conn) {
 			setBad("stream ends inside a frame of %d bytes: %v", n, err)
 			return
 		}
-		var f c31EFrame
+		f := c31EFrame{at: time.Now()}
 		if n >= 12 && string(body[:4]) == c31EMagic {
 			seq := binary.BigEndian.Uint64(body[4:12])
 			f.seq = int64(seq)
@@ -257,19 +270,20 @@ type c31EOffer struct {
 
 func c31RunEgress(p c31EPlan) (res c31EResult) {
 	res.classes = map[string]bool{}
+	sched := c31SchedStart()
 	tStart := time.Now()
 	var progress atomic.Int64
 	progress.Store(time.Now().UnixNano())
 	// ledger: only accepted packets are remembered (a sustained overload offers millions)
 	var offMu sync.Mutex
-	accepted := map[uint64]int{} // seq -> body size
+	accepted := map[uint64]c31EAcc{} // seq -> body size, time of acceptance
 	var pending c31EOffer        // the offer in flight: may already arrive upstream before it is booked
 	var nOffers uint64
 	sizeOf := func(seq uint64) (int, bool) {
 		offMu.Lock()
 		defer offMu.Unlock()
-		if sz, ok := accepted[seq]; ok {
-			return sz, true
+		if a, ok := accepted[seq]; ok {
+			return a.size, true
 		}
 		if pending.valid && pending.seq == seq {
 			return pending.size, true
@@ -377,6 +391,54 @@ func c31RunEgress(p c31EPlan) (res c31EResult) {
 	optional := map[uint64]bool{} // accepted packets that are allowed to get lost (or, on different connections, to arrive twice)
 	nRequiredAfterKill := 0
 	lastCall := time.Now()
+	offerAt := func(si, size int) bool {
+		offMu.Lock()
+		seq := nOffers
+		nOffers++
+		pending = c31EOffer{seq: seq, size: size, valid: true}
+		offMu.Unlock()
+		body = c31EBody(body, seq, size)
+		pkt = append(pkt[:pktHeadLen], body...)
+		binary.LittleEndian.PutUint32(pkt[:pktHeadLen], uint32(len(body)))
+		frameLen := len(pkt)
+		if !killedAt.IsZero() && !detected && e.stats.writeErrors.Load() > writeErrors0 {
+			detected = true
+		}
+		mustArrive := detected && time.Since(killedAt) >= 2*time.Second // decided before the call
+		fillP, fillS := fill(e.pool.primary), fill(e.pool.secondary)
+		pkt = e.WritePacketLocked(pkt)
+		if cap(pkt) < pktFrameMax {
+			pkt = make([]byte, 0, pktFrameMax)
+		}
+		lastCall = time.Now()
+		s := e.Stats()
+		switch {
+		case s.ForwardedPackets == 1 && s.DroppedPackets == 0:
+			offMu.Lock()
+			accepted[seq] = c31EAcc{size, lastCall}
+			if !killedAt.IsZero() {
+				if mustArrive {
+					nRequiredAfterKill++
+				} else {
+					optional[seq] = true
+				}
+			}
+			offMu.Unlock()
+			nAccepted++
+		case s.ForwardedPackets == 0 && s.DroppedPackets == 1:
+			nDropped++
+			droppedFrame += float64(frameLen)
+			droppedBody += float64(frameLen - pktHeadLen)
+			if fillP < bufferLen || fillS < bufferLen {
+				res.violation = fmt.Sprintf("step %d: packet #%d dropped although the send buffers held %d and %d of %d packets just before the call", si, seq, fillP, fillS, bufferLen)
+				return false
+			}
+		default:
+			res.violation = fmt.Sprintf("step %d: one WritePacketLocked call changed Stats by forwarded=%d dropped=%d (want exactly one of them = 1)", si, s.ForwardedPackets, s.DroppedPackets)
+			return false
+		}
+		return true
+	}
 	for si, st := range p.Steps {
 		switch st.Stall {
 		case "none":
@@ -440,54 +502,7 @@ func c31RunEgress(p c31EPlan) (res c31EResult) {
 		if size > pktBodyMax {
 			size = pktBodyMax
 		}
-		offer := func() bool {
-			offMu.Lock()
-			seq := nOffers
-			nOffers++
-			pending = c31EOffer{seq: seq, size: size, valid: true}
-			offMu.Unlock()
-			body = c31EBody(body, seq, size)
-			pkt = append(pkt[:pktHeadLen], body...)
-			binary.LittleEndian.PutUint32(pkt[:pktHeadLen], uint32(len(body)))
-			frameLen := len(pkt)
-			if !killedAt.IsZero() && !detected && e.stats.writeErrors.Load() > writeErrors0 {
-				detected = true
-			}
-			mustArrive := detected && time.Since(killedAt) >= 2*time.Second // decided before the call
-			fillP, fillS := fill(e.pool.primary), fill(e.pool.secondary)
-			pkt = e.WritePacketLocked(pkt)
-			if cap(pkt) < pktFrameMax {
-				pkt = make([]byte, 0, pktFrameMax)
-			}
-			lastCall = time.Now()
-			s := e.Stats()
-			switch {
-			case s.ForwardedPackets == 1 && s.DroppedPackets == 0:
-				offMu.Lock()
-				accepted[seq] = size
-				if !killedAt.IsZero() {
-					if mustArrive {
-						nRequiredAfterKill++
-					} else {
-						optional[seq] = true
-					}
-				}
-				offMu.Unlock()
-				nAccepted++
-			case s.ForwardedPackets == 0 && s.DroppedPackets == 1:
-				nDropped++
-				droppedFrame += float64(frameLen)
-				droppedBody += float64(frameLen - pktHeadLen)
-				if fillP < bufferLen || fillS < bufferLen {
-					res.violation = fmt.Sprintf("step %d: packet #%d dropped although the send buffers held %d and %d of %d packets just before the call", si, seq, fillP, fillS, bufferLen)
-					return false
-				}
-			default:
-				res.violation = fmt.Sprintf("step %d: one WritePacketLocked call changed Stats by forwarded=%d dropped=%d (want exactly one of them = 1)", si, s.ForwardedPackets, s.DroppedPackets)
-				return false
-			}
-			return true
-		}
+		offer := func() bool { return offerAt(si, size) }
 		if st.Await && !killedAt.IsZero() {
 			// keep the sender writing (a batch of 40 is handed over at once) until it has hit the dead
 			// connection; bounded, and never more than the dead sender's buffer could hide
@@ -555,6 +570,8 @@ func c31RunEgress(p c31EPlan) (res c31EResult) {
 	var reported float64
 	nReports := 0
 	seenRequired := 0
+	trickle := p.TrickleCount > 0 && p.TrickleGapMs > 0
+	arrivedAt := map[uint64]time.Time{} // trickle plans only
 	check := func(final bool) (done bool, problem string) {
 		wantKey := receiver.TCPPrefix + string(receiver.TCPMagicV2Balancer) + string(binary.LittleEndian.AppendUint32(nil, uint32(len(hostTag)))) + hostTag
 		for ui, u := range ups {
@@ -593,6 +610,9 @@ func c31RunEgress(p c31EPlan) (res c31EResult) {
 						continue
 					}
 					seen[f.seq] = true
+					if trickle {
+						arrivedAt[uint64(f.seq)] = f.at
+					}
 					if !optional[uint64(f.seq)] {
 						seenRequired++
 					}
@@ -649,11 +669,66 @@ func c31RunEgress(p c31EPlan) (res c31EResult) {
 		}
 		return false, ""
 	}
+	// steady trickle: every packet has its own deadline
+	var trickleSeqs []uint64
+	firstOpen := 0
+	tooLate := func() bool {
+		now := time.Now()
+		for ; firstOpen < len(trickleSeqs); firstOpen++ {
+			seq := trickleSeqs[firstOpen]
+			offMu.Lock()
+			acc := accepted[seq]
+			offMu.Unlock()
+			var d time.Duration
+			if at, ok := arrivedAt[seq]; !ok {
+				if d = now.Sub(acc.at); d <= c31TrickleBoundEgress {
+					return false
+				}
+			} else if d = at.Sub(acc.at); d <= c31TrickleBoundEgress {
+				continue
+			}
+			starved, info := sched.starved(acc.at, acc.at.Add(d))
+			msg := fmt.Sprintf("steady trickle (one packet every %d ms): packet #%d did not arrive upstream within %v of its acceptance (waited %v so far; %d accepted, %d arrived); both upstreams alive and reading; %s",
+				p.TrickleGapMs, seq, c31TrickleBoundEgress, d.Round(time.Millisecond), nAccepted, len(seen), info)
+			if starved {
+				res.inconclusive = "machine starved: " + msg
+			} else {
+				res.violation = msg
+			}
+			return true
+		}
+		return false
+	}
+	if trickle {
+		res.classes["steady-trickle"] = true
+		res.nontrivial = true
+		size := min(max(p.TrickleSize, 12), pktBodyMax)
+		for k := 0; k < p.TrickleCount; k++ {
+			time.Sleep(time.Duration(p.TrickleGapMs) * time.Millisecond)
+			n0 := nAccepted
+			if !offerAt(len(p.Steps), size) {
+				return
+			}
+			if nAccepted > n0 {
+				trickleSeqs = append(trickleSeqs, nOffers-1)
+			}
+			if _, problem := check(false); problem != "" {
+				res.violation = problem
+				return
+			}
+			if tooLate() {
+				return
+			}
+		}
+	}
 	drainStart := time.Now()
 	for {
 		done, problem := check(false)
 		if problem != "" {
 			res.violation = problem
+			return
+		}
+		if trickle && tooLate() {
 			return
 		}
 		if done {
